@@ -80,6 +80,7 @@ Record Rrb (b : WinDefs.rbuf) (A : ast) : Prop := mkRrb {
   R_xc : xc (a_aux A) = rb_xc b;
   R_depth : depth (a_aux A) = rb_depth b;
   R_depth_ge : 0 <= rb_depth b;
+  R_depth_stack : Z.of_nat (length (rb_stack b)) <= rb_depth b;
   R_stack : Forall2 frame_rep (rb_stack b) (stack (a_aux A));
   R_stack_in : Forall (fun g => forall q, cell_inb (f_clip g) q = true -> rb_inb b q = true) (stack (a_aux A))
 }.
